@@ -181,6 +181,38 @@ def r3b_db_rewrite_replaces_rows(ctx):
         r.anchor_missing("insert_folder_secrets call in upsert_folder_and_secrets")
 
 
+PARTIAL_IO_OK = {
+    "<sos_database::archive::import::HashingWriter<W, H> as std::io::Write>::write": "a Write impl forwarding to the inner writer and returning its count (the caller loops)",
+}
+
+
+def r6_no_partial_io(ctx):
+    ws = ctx.ws
+    r = ctx.rule("C01-R6", "partial-read / partial-write calls (read, read_buf, write) are used only in loops that consume the whole buffer",
+                 floor=1, kind="K1 API-use predicate")
+    n = 0
+    for f in ws.fns.values():
+        if f.crate in idioms.TEST_CRATES or not f.crate.startswith("sos"):
+            continue
+        for b, i, t in f.calls():
+            nme = cname(t)
+            tr = t.get("trait") or ""
+            if nme not in ("read", "read_buf", "read_at", "write", "write_buf", "write_vectored") or not re.search(r"(AsyncRead|AsyncWrite|io::Read|io::Write)", tr):
+                continue
+            if i not in cfg.live_blocks(b):
+                continue
+            n += 1
+            k = "%s|%s" % (f.root, nme)
+            if f.root in PARTIAL_IO_OK:
+                r.ok(k, cfg.loc(b, i), "tabled: " + PARTIAL_IO_OK[f.root], work=1)
+            elif i in cfg.reach_after(b, i):
+                r.ok(k, cfg.loc(b, i), "`%s` is inside a loop" % nme, work=1)
+            else:
+                r.violation(k, cfg.loc(b, i), "`%s` may transfer only part of the data and is called once, outside any loop: large vaults/logs are silently truncated (use read_to_end / read_exact / write_all)" % nme, work=1)
+    if n == 0:
+        r.anchor_missing("any partial read/write call (the tabled HashingWriter::write must be seen)")
+
+
 def r4_sql_scoping(ctx):
     ws = ctx.ws
     r = ctx.rule("C01-R4", "every UPDATE/DELETE on vault rows is scoped to its folder (and row)",
@@ -250,3 +282,4 @@ def run(ctx):
     r3b_db_rewrite_replaces_rows(ctx)
     r4_sql_scoping(ctx)
     r5_reload_covers_every_folder(ctx)
+    r6_no_partial_io(ctx)
